@@ -1,11 +1,261 @@
-"""E8 tables (see gen.py); built incrementally."""
+"""E8 -- generator tables: closed-world facts about codegen/ obtained by abstract evaluation
+of its small pure functions and by parsing its string templates as Python fragments."""
 from __future__ import annotations
+
+import ast
+import re
+
+from .core import AnalysisError
+from .grammar import SPEC_PYTYPE, KAFKA_TYPES, SPEC_FIXED
+from .interp_base import Raised, Run, Limit, short_exc
+from .ssm import Norm, type_term, _imports_of
+from .values import *  # noqa
+
+
+def _mod(ctx, name):
+    try:
+        return ctx.interp.module(name)
+    except Raised as r:
+        raise AnalysisError(f"importing {name} raises {r.exc!r} at {r.site}")
+    except Limit as e:
+        raise AnalysisError(f"{name} not understood: {e}")
+
+
+def primitive_members(ctx):
+    P = _mod(ctx, "codegen.parser").env.vars.get("Primitive")
+    if not isinstance(P, ClassV) or "enum" not in P.flags:
+        raise AnalysisError("anchor vanished: codegen.parser.Primitive")
+    return P, list(P.flags["enum"].values())
+
+
+def template_env(ctx):
+    """Module environment a generated version module starts with: the imports of the
+    `imports_and_docstring` template plus a header import."""
+    I = ctx.interp
+    gs = _mod(ctx, "codegen.generate_schema")
+    tpl = gs.env.vars.get("imports_and_docstring")
+    if not isinstance(tpl, str):
+        raise AnalysisError("anchor vanished: codegen.generate_schema.imports_and_docstring")
+    text = tpl.replace("{schema_repository_source}", "x/").replace("{schema_source}", "X.json")
+    try:
+        tree = ast.parse(text)
+    except SyntaxError as e:
+        raise AnalysisError(f"imports_and_docstring template does not parse as a module: {e}")
+    env = Env(None, "module", "<generated module template>")
+    I.frames.append(type("F", (), {"fn": None, "module": "kio.schema._template_", "node": None})())
+    try:
+        I.exec_block(tree.body, env, Run())
+    except Raised as r:
+        raise AnalysisError(f"the imports of the generated-module template fail: {r.exc!r}")
+    finally:
+        I.frames.pop()
+    return env, tree, _imports_of(tree, "kio.schema._template_", False)
+
+
+def eval_in(ctx, env, src):
+    I = ctx.interp
+    tree = ast.parse(src, mode="eval")
+    I.frames.append(type("F", (), {"fn": None, "module": "kio.schema._template_", "node": None})())
+    try:
+        return I.ev(tree.body, env, Run())
+    finally:
+        I.frames.pop()
+
+
+def hint_and_default_table(ctx):
+    """Per Primitive member: hint string, tagged-default string, their evaluation in the template env."""
+    I = ctx.interp
+    gs = _mod(ctx, "codegen.generate_schema")
+    P, members = primitive_members(ctx)
+    fdt = gs.env.vars.get("_format_default_for_tagged")
+    if not isinstance(fdt, FuncV):
+        raise AnalysisError("anchor vanished: codegen.generate_schema._format_default_for_tagged")
+    env, tree, imports = template_env(ctx)
+    rows = []
+    for m in members:
+        row = {"member": m.name, "kafka_type": m.value, "hint": None, "hint_opt": None, "default": None, "problems": []}
+        for key, opt in (("hint", False), ("hint_opt", True)):
+            try:
+                row[key] = I.call(I.getattr_(m, "get_type_hint", Run(), None), [], {"optional": opt}, Run(), None)
+            except Raised as r:
+                row["problems"].append(f"get_type_hint({opt}) raises {short_exc(r.cls)}")
+            except Limit as e:
+                raise AnalysisError(f"Primitive.get_type_hint not understood: {e}")
+        try:
+            row["default"] = I.call(fdt, [m], {}, Run(), None)
+        except Raised as r:
+            row["problems"].append(f"_format_default_for_tagged raises {short_exc(r.cls)}")
+        except Limit as e:
+            raise AnalysisError(f"_format_default_for_tagged not understood: {e}")
+        # evaluate in the module template's environment
+        for key in ("hint", "hint_opt"):
+            if isinstance(row[key], str):
+                try:
+                    row[key + "_value"] = eval_in(ctx, env, row[key])
+                except SyntaxError:
+                    row["problems"].append(f"type hint {row[key]!r} is not an expression")
+                except Raised as r:
+                    row["problems"].append(f"type hint {row[key]!r} does not evaluate in a generated module: {short_exc(r.cls)} {r.exc.attrs.get('args')}")
+                except Limit as e:
+                    row["problems"].append(f"type hint {row[key]!r}: {e}")
+        if isinstance(row["default"], str):
+            try:
+                row["default_value"] = eval_in(ctx, env, row["default"])
+                row["default_ok"] = True
+            except SyntaxError:
+                row["problems"].append(f"tagged default {row['default']!r} is not an expression")
+            except Raised as r:
+                row["problems"].append(f"tagged default {row['default']!r} does not evaluate in a generated module: "
+                                       f"{short_exc(r.cls)} {r.exc.attrs.get('args')}")
+            except Limit as e:
+                row["problems"].append(f"tagged default {row['default']!r}: {e}")
+        rows.append(row)
+    return rows, env, fdt
+
+
+def classvar_templates(ctx):
+    """The `    __x__: ... = ...` lines the generator can yield, parsed as annotated assignments."""
+    src = ctx.sm.require("codegen.generate_schema")
+    out = {}
+    for node in ast.walk(src.tree):
+        text = None
+        if isinstance(node, ast.JoinedStr):
+            text = "".join(v.value if isinstance(v, ast.Constant) else "HOLE" for v in node.values)
+        elif isinstance(node, ast.Constant) and isinstance(node.value, str):
+            text = node.value
+        if not text:
+            continue
+        for line in text.splitlines():
+            m = re.match(r"^    (__\w+__)\s*:", line)
+            if not m:
+                continue
+            try:
+                st = ast.parse(line.strip()).body[0]
+            except SyntaxError:
+                out.setdefault(m.group(1), set()).add(("<unparsable>", line.strip(), getattr(node, "lineno", 0)))
+                continue
+            if isinstance(st, ast.AnnAssign):
+                v = st.value
+                shape = ("call:" + ast.unparse(v.func)) if isinstance(v, ast.Call) else ("name" if isinstance(v, (ast.Name, ast.Attribute)) else type(v).__name__)
+                if isinstance(v, ast.Attribute):
+                    shape = "attr:" + ast.unparse(v.value)
+                ann = re.sub(r"\b(RequestHeader|ResponseHeader)\b", "X", ast.unparse(st.annotation).replace("HOLE", "X"))
+                out.setdefault(m.group(1), set()).add((ann, shape, getattr(node, "lineno", 0)))
+    return out
+
+
+def shipped_classvar_shapes(S):
+    out = {}
+    for c in S.classes.values():
+        for name, cv in c["classvars"].items():
+            v = cv["value"]
+            if v is None:
+                shape = "none"
+            elif "call" in v:
+                shape = "call:" + v["call"].get("n", "?").split(":")[-1]
+            elif "n" in v:
+                n = v["n"].split(":")[-1]
+                shape = "attr:" + n.rsplit(".", 1)[0] if "." in n else "name"
+            elif "c" in v:
+                shape = "Constant" if not isinstance(v["c"], bool) else "name"
+            else:
+                shape = "other"
+            ann = re.sub(r"\b(RequestHeader|ResponseHeader)\b", "X", cv.get("ann_src", ""))
+            out.setdefault(name, {}).setdefault((ann, shape), 0)
+            out[name][(ann, shape)] += 1
+    return out
+
+
+def metadata_keys_written(ctx):
+    src = ctx.sm.require("codegen.generate_schema")
+    keys = {}
+    for node in ast.walk(src.tree):
+        if isinstance(node, ast.Subscript) and isinstance(node.ctx, ast.Store) and isinstance(node.value, ast.Name) \
+                and node.value.id == "metadata" and isinstance(node.slice, ast.Constant):
+            keys[node.slice.value] = node.lineno
+    return keys
+
+
+def metadata_keys_read(ctx):
+    src = ctx.sm.require("kio.serial._introspect")
+    keys = {}
+    for node in ast.walk(src.tree):
+        if isinstance(node, ast.Subscript) and isinstance(node.ctx, ast.Load) and isinstance(node.value, ast.Attribute) \
+                and node.value.attr == "metadata" and isinstance(node.slice, ast.Constant):
+            keys[node.slice.value] = node.lineno
+    return keys
+
+
+def default_shape(n):
+    """Shape of a normalised default: callee + argument kinds."""
+    if n is None:
+        return None
+    if "c" in n:
+        v = n["c"]
+        return "None" if v is None else type(v).__name__
+    if "t" in n:
+        return "()" if not n["t"] else "tuple"
+    if "n" in n:
+        return "name:" + n["n"].split(":")[-1]
+    if "call" in n:
+        callee = n["call"].get("n", "?").split(":")[-1]
+        args = ",".join(default_shape(a) or "?" for a in n["args"])
+        kws = ",".join(f"{k}={default_shape(v)}" for k, v in sorted(n["kw"].items()))
+        return f"{callee}({','.join(x for x in (args, kws) if x)})"
+    return "other"
+
+
+def generator_default_shapes(ctx):
+    """Shapes of default expressions the generator can print."""
+    I = ctx.interp
+    gs = _mod(ctx, "codegen.generate_schema")
+    P, members = primitive_members(ctx)
+    fd = gs.env.vars.get("format_default")
+    CT = gs.env.vars.get("CustomTypeDef")
+    if not isinstance(fd, FuncV) or not isinstance(CT, ClassV):
+        raise AnalysisError("anchor vanished: codegen.generate_schema.format_default / CustomTypeDef")
+    env, tree, imports = template_env(ctx)
+    imports = dict(imports)
+    imports["BrokerId"] = ("kio.schema.types", "BrokerId")
+    nx = Norm("kio.schema._template_", imports, set())
+    shapes = {}
+    samples = ["7", "-1", "0x7", "true", "false", "null", "1.5", "abc", ""]
+    for m in members:
+        for d in samples:
+            for optional in (False, True):
+                for custom in (None, "custom"):
+                    ct = None
+                    if custom:
+                        try:
+                            ct = I.call(CT, [], {"name": "CUSTOM", "type_": m}, Run(), None)
+                        except (Raised, Limit):
+                            continue
+                    try:
+                        out = I.call(fd, [m, d, optional, ct], {}, Run(), None)
+                    except Raised:
+                        continue
+                    except Limit as e:
+                        raise AnalysisError(f"format_default not understood: {e}")
+                    if not isinstance(out, str):
+                        continue
+                    try:
+                        e = ast.parse(out, mode="eval").body
+                    except SyntaxError:
+                        shapes.setdefault("<unparsable>", []).append((m.name, d, out))
+                        continue
+                    sh = default_shape(nx(e))
+                    if custom and sh:
+                        sh = sh.replace("?:CUSTOM", "<custom>").replace("CUSTOM", "<custom>")
+                    shapes.setdefault(sh, []).append((m.name, d, out))
+    return shapes
 
 
 def compare_with_instances(ctx):
+    """Rows {ok, construct, stmt, message, line} for C04-c."""
     from .gen import class_template_options
     S = ctx.schema
     rows = []
+    # (1) decorator options
     opts, line = class_template_options(ctx)
     shipped = {}
     for c in S.classes.values():
@@ -17,4 +267,69 @@ def compare_with_instances(ctx):
     rows.append({"ok": set(shipped) == {want}, "construct": "codegen.generate_schema:generate_dataclass",
                  "stmt": f"class_start @dataclass({opts})", "line": line,
                  "message": f"generator decorates with {dict(want)} but shipped classes carry {[dict(k) for k in shipped]}"})
+    # (2) class variable templates
+    tpl = classvar_templates(ctx)
+    have = shipped_classvar_shapes(S)
+    for name in sorted(set(tpl) | set(have)):
+        t = {(a, s) for a, s, _ in tpl.get(name, ())}
+        h = set(have.get(name, {}))
+        ln = min((l for _, _, l in tpl.get(name, ())), default=0)
+        rows.append({"ok": bool(t) and h <= t and bool(h), "construct": "codegen.generate_schema:class variable templates",
+                     "stmt": f"{name}: templates {sorted(t)}", "line": ln,
+                     "message": f"class variable {name}: generator templates {sorted(t)} vs shipped shapes {sorted(h)}"})
+    # (3) type hints
+    table, env, fdt = hint_and_default_table(ctx)
+    I = ctx.interp
+    for row in table:
+        kt = row["kafka_type"]
+        want_t = SPEC_PYTYPE.get(kt)
+        hv = row.get("hint_value")
+        ref = None
+        base = hv
+        if isinstance(hv, UnionV):
+            nn = [a for a in hv.args if not (isinstance(a, LibClass) and a.name == "NoneType")]
+            base = nn[0] if len(nn) == 1 else hv
+        if isinstance(base, ClassV):
+            ref = base.ref
+        elif isinstance(base, LibClass):
+            ref = {"str": "builtins:str", "bytes": "builtins:bytes", "bool": "builtins:bool", "uuid.UUID": "uuid:UUID"}.get(base.name, base.name)
+        used = sum(1 for c in S.classes.values() for f in c["fields"] if (f.get("metadata") or {}).get("kafka_type") == kt)
+        rows.append({"ok": ref == want_t and not [p for p in row["problems"] if "hint" in p], "file": "codegen/parser.py",
+                     "construct": "codegen.parser:Primitive.get_type_hint", "stmt": f"{row['member']}: hint {row['hint']!r}",
+                     "message": f"hint for {kt} is {row['hint']!r} -> {ref}; the shipped fields of that kafka type ({used}) are {want_t}; "
+                                + "; ".join(p for p in row["problems"] if "hint" in p)})
+    # (4) metadata keys
+    mk = metadata_keys_written(ctx)
+    found = set()
+    for c in S.classes.values():
+        for f in c["fields"]:
+            found.update((f.get("metadata") or {}).keys())
+    rows.append({"ok": set(mk) == found, "construct": "codegen.generate_schema:format_dataclass_field",
+                 "stmt": f"metadata keys {sorted(mk)}", "line": min(mk.values(), default=0),
+                 "message": f"generator writes metadata keys {sorted(mk)} but shipped fields carry {sorted(found)}"})
+    # (5) default shapes
+    gshapes = generator_default_shapes(ctx)
+    tagged_defaults = {default_shape(Norm("t", {}, set())(ast.parse(r["default"], mode="eval").body)) for r in table
+                       if isinstance(r["default"], str) and r.get("default_ok")}
+    printable = set(gshapes) | tagged_defaults | {"()", "None"}
+    local_classes = {c["name"] for c in S.classes.values()}
+    seen = {}
+    for c in S.classes.values():
+        for f in c["fields"]:
+            if f["default"] is None:
+                continue
+            sh = default_shape(f["default"])
+            seen.setdefault(sh, []).append(f"{c['key']}.{f['name']}")
+    custom_names = set(n.split(":")[1] for n in S.custom_types)
+    for sh, where in sorted(seen.items(), key=lambda kv: str(kv[0])):
+        ok = sh in printable
+        if not ok and sh:
+            m = re.match(r"^(\w+)\((.*)\)$", sh)
+            if m and m.group(1) in custom_names and f"<custom>({m.group(2)})" in printable:
+                ok = True
+            if m and m.group(1) in local_classes and m.group(2) == "":
+                ok = True  # nested entity with only defaults: f"{field_type}()"
+        rows.append({"ok": ok, "construct": "codegen.generate_schema:format_default", "stmt": f"default shape {sh}",
+                     "message": f"{len(where)} shipped field(s) (e.g. {where[0]}) have a default of shape {sh} that the current "
+                                f"generator cannot print"})
     return rows
